@@ -36,6 +36,7 @@ class Machine:
         self.ext = atom
         self.trace = []
         self.param_values = False
+        self.depth = 0
 
     # ---- lvalues rooted at locals -------------------------------------------------------
     def locate(self, n):
@@ -84,6 +85,10 @@ class Machine:
             v = self.ext(n)
             if v is not None:
                 return v
+        if n.k == "CallExpr" and n.callee and self.depth < 2 and self.P.has_fn(n.callee) and n.callee not in self.NO_INLINE:
+            v = self.call(n)
+            if v is not None:
+                return v
         if self.param_values and n.k == "ImplicitCastExpr" and n.ck == "LValueToRValue":
             m = strip_parens(n.kids[0])
             if m.k == "DeclRefExpr" and m.dk == "param" and m.did:
@@ -102,6 +107,33 @@ class Machine:
 
     def eval(self, n):
         return ev(self.fn, n, self.atom)
+
+    NO_INLINE = ("fiber_manager_get", "fiber_manager_yield", "fiber_yield", "cpu_relax")
+
+    def call(self, n):
+        """value of a call to a small side-effect-free library helper: its body is interpreted with the arguments bound"""
+        g = self.P.fn(n.callee)
+        if g.has_loop() or any(c.callee and not c.callee.startswith("__builtin") and c.callee != "__assert_fail" for c in g.calls()) or g.stores() and \
+                any(Machine(g, self.P).locate(s.target) is None for s in g.stores()):
+            return None
+        args = self.fn.args(n)
+        if len(args) != len(g.params):
+            return None
+        sub = Machine(g, self.P, None)
+        sub.depth = self.depth + 1
+        for a, p in zip(args, g.params):
+            loc = self.locate(strip_parens(a.kids[0])) if a.k == "ImplicitCastExpr" and a.ck == "LValueToRValue" else None
+            try:
+                sub.vals[p["did"]] = self.read(loc) if (loc is not None and loc[0] in self.vals) else self.eval(a)
+            except Unevaluable:
+                return None
+        try:
+            r = sub.run("entry", lambda m: m.k == "ReturnStmt")
+            if r is None or not r.kids:
+                return None
+            return sub.eval(r.kids[0])
+        except Unevaluable:
+            return None
 
     # ---- statements -----------------------------------------------------------------------
     def exec_elem(self, n):
